@@ -222,7 +222,7 @@ class NCElement:
         self.__parser = etree.XMLParser(remove_blank_text=True, huge_tree=self.__huge_tree)
         self.__xslt_doc = etree.parse(io.BytesIO(self.__xslt), self.__parser)
         self.__transform = etree.XSLT(self.__xslt_doc)
-        self.__root = etree.fromstring(str(self.__transform(etree.parse(StringIO(str(rpc_reply)),
+        self.__root = etree.fromstring(str(self.__transform(etree.parse(BytesIO(str(rpc_reply).encode('UTF-8')),
                                                                         parser=self.__parser))),
                                        parser=self.__parser)
         return self.__root
